@@ -62,6 +62,8 @@ pub fn build(a: &Assign) -> (ConnCfg, ServerParams) {
     p.source_descriptor = [b"RDP\0".to_vec(), vec![], vec![0x41; 300]][a[19]].clone();
     p.reactivations = [0usize, 1, 2, 4][a[20]];
     p.reuse_share_id = a[21] == 1;
+    // (values 2 and 3 only come from `history_assignments`: the deactivate-all packed behind another PDU in its frame)
+    p.deactivate_packed_behind = if a[21] >= 2 { (a[21] - 1) as u8 } else { 0 };
     p.licence_sec_flags = [0x0080u16, 0x0280][a[22]];
     p.errinfo_before = a[23];
     c.builder_order = [0u8, 1, 2, 3, 4, 5][a[24]];
@@ -105,7 +107,7 @@ pub fn assignments(sizes: &[usize], k: usize) -> Vec<Assign> {
 pub fn history_assignments() -> Vec<Assign> {
     let n = dim_sizes().len();
     let mut out = vec![];
-    for mode in 5..=11usize {
+    for mode in 5..=12usize {
         let mut a = vec![0usize; n];
         a[31] = mode;
         out.push(a.clone());
@@ -113,6 +115,19 @@ pub fn history_assignments() -> Vec<Assign> {
             let mut b = a.clone();
             b[d] = 1;
             out.push(b);
+        }
+    }
+    // a re-activation whose deactivate-all rides in one frame behind a data PDU the client does not parse / behind a Set
+    // Error Info PDU (1, 2 and 4 re-activations, NLA on and off)
+    for packed in [2usize, 3] {
+        for react in [1usize, 2, 3] {
+            for nla in [0usize, 1] {
+                let mut a = vec![0usize; n];
+                a[21] = packed;
+                a[20] = react;
+                a[0] = nla;
+                out.push(a);
+            }
         }
     }
     out
@@ -452,7 +467,7 @@ impl Prop for C17 {
                 }
                 let sels: Vec<u32> = if c.use_nla { vec![2, 1] } else { vec![1] };
                 for sel in sels {
-                    for order in 0..6u8 {
+                    for order in 0..7u8 {
                         let mut c2 = c.clone();
                         c2.builder_order = order;
                         cs.push((c2, sel, 0u32, 0u32));
@@ -463,7 +478,7 @@ impl Prop for C17 {
                         cs.push((c.clone(), sel, 0xF100_0000 | flags, 0u32));
                     }
                     // the connector object served other connections before (see ConnCfg::earlier_connections)
-                    for earlier in 1..=11u8 {
+                    for earlier in 1..=12u8 {
                         let mut c2 = c.clone();
                         c2.earlier_connections = earlier;
                         cs.push((c2, sel, 0u32, 0u32));
